@@ -2,8 +2,11 @@
 HD = "harness/C10_dict_read.c"
 H17 = "harness/C17_s3file.c"
 NB17 = ["mmio_file_read", "mmio_file_unmap", "mmio_file_ptr", "mmio_file_size", "strncmp", "strlen", "ssw_memcpy", "ssw_memmove"]
+H16 = "harness/C16_decoder_add_word.c"
 GROUPS = [
-    dict(name="dict_read_text_4", harness=HD, entry="r_dict_read", defines=["DLEN=4"], allow_no_body=["*"], unwind=6, backends=[["--sat-solver", "cadical"]], unwind_is_obligation=True,
+    dict(name="decoder_add_word_parser", harness=H16, entry="r_decoder_add_word", unwind=5, defines=["PLEN=3"], canary=True,
+         allow_no_body=["*"], bounded="word/pronunciation pairs: phone strings of <= 3 characters with symbolic content (every write of a phone id must stay inside the id buffer; empty word / pronunciation rejected)"),
+    dict(name="dict_read_text_4", tiers=("probe",), harness=HD, entry="r_dict_read", defines=["DLEN=4"], allow_no_body=["*"], unwind=6, backends=[["--sat-solver", "cadical"]], unwind_is_obligation=True,
          replay={"name": "dict_read_replay", "harness": HD, "entry": "r_dict_read", "defines": ["DLEN=4"], "native_replay": True, "canary": False, "allow_no_body": ["*"], "unwind": 6,
                  "native_sources": "ALL", "native_exclude": ["dict.c", "s3file.c", "strfuncs.c", "bin_mdef.c"]},
          bounded="dictionary texts of <= 4 symbolic bytes (all line/word/comment shapes that fit), real tokenisers; non-termination within the bound is a violation"),
@@ -11,3 +14,20 @@ GROUPS = [
     dict(name="s3file_nextword", harness=H17, enforce="s3file_nextword", loop_contracts=True, loops=["s3file_nextword.skip", "s3file_nextword.word", "s3file_nextword.trail"],
          min_loop_steps=3, defines=["SSW_NO_MEM_STUBS", "S3_ELSZ=4"], allow_no_body=NB17, min_postconditions=2),
 ]
+
+NATIVE = [
+    dict(name="dict_text_enum", source="native/dict_text_enum.c", repo_sources="ALL_EXCEPT:dict.c,ckd_alloc.c", cflags=["-w", "-fsanitize=address"],
+         args={"quick": [], "thorough": ["thorough"]}, exhaustive=True,
+         bound="EVERY dictionary text of <= 5 bytes (thorough 6) over a 10-letter alphabet (phones, lower case, space, newline, #, ;, parentheses, digit): 111 111 texts through the real dict_read_s3file / tokenisers / dict_add_word / hash table, exact-size heap blocks under AddressSanitizer, exit() trapped"),
+]
+ASSUMPTIONS = [
+    "tokenisers: file view of <= 1 000 000 bytes (contracts shared with C17)",
+    "dictionary reader: exhaustive native enumeration (bounded stand-in, not proof); a CBMC run of the same harness (tier probe) exhausted memory",
+    "phone lookup is a stub in the bounded runs (upper-case letters are phones)",
+]
+HAND_LEMMAS = []
+NOT_COVERED = ["the generated JSGF scanner and parser (3 700 lines of table-driven code) and jsgf.c expansion (only the refusal clause, C05)", "fsg_model_read_s3file (seeded change C10_A)", "config.c + jsmn.h JSON / key-value configuration parser (seeded change C10_B)", "decoder_set_align_text", "cmn_set_repr", "objects returned from such input can be used and freed"]
+CLAIM = dict(
+    text="The line and word tokenisers that every text reader is built on (s3file_nextline, s3file_nextword) are proved with loop invariants and termination to stay inside the text for inputs of any length up to 1 MB. decoder_add_word's phone-string parser is checked by CBMC on every phone string of <= 3 characters (bounded). The dictionary reader is checked by exhaustive native enumeration of all 111 111 texts of <= 5 bytes over a 10-letter alphabet under AddressSanitizer with exit() trapped (bounded stand-in), which found two genuine defects (fixed). JSGF, FSG and configuration parsers are NOT covered.",
+    note="tokeniser proofs + bounded parser check + native enumeration for the dictionary reader; JSGF/FSG/config parsers not covered; trusted: CBMC 6.11, ASan",
+    technique="CBMC function + loop contracts (goto-instrument --dfcc) for the tokenisers; CBMC bounded run for the phone parser; native exhaustive enumeration as bounded stand-in for the dictionary reader")
